@@ -7,10 +7,20 @@ HERE = os.path.dirname(os.path.dirname(os.path.abspath(__file__)))
 sys.path.insert(0, HERE)
 from stonelint.model import Program
 from stonelint.rules.C01 import enforcement_sites
-pm = Program('/repo')
+pm = Program('/repo', alpha=False)
 sites = enforcement_sites(pm)
 json.dump({'note': 'per function: number of error-reporting sites (raise InvalidSpec, '
                    'self.errors.append/insert, raise via helper) confirmed at /repo HEAD',
            'sites': sites}, open(os.path.join(HERE, 'reference', 'enforcement_sites.json'), 'w'),
           indent=1, sort_keys=True)
 print(len(sites), 'functions,', sum(sites.values()), 'sites')
+
+# locals of every function, for alpha-normalisation (stonelint/alpha.py)
+from stonelint import alpha
+pm0 = Program('/repo', alpha=False)
+ref = alpha.build_reference({name: m.tree for name, m in pm0.modules.items()})
+json.dump({'note': 'per function: its locals in first-binding order with the descriptor of their '
+                   'bindings at /repo HEAD; used to undo pure renames of locals before the rules run',
+           'functions': ref}, open(os.path.join(HERE, 'reference', 'locals.json'), 'w'),
+          indent=0, sort_keys=True)
+print(len(ref), 'functions with locals')
